@@ -36,6 +36,13 @@ pub fn u1() -> Vec<Ty> {
         }
     }
     s.insert(Ty::Struct(Default::default()));
+    // cells and iterators over unions (meet / join of cell types, iterator element folds)
+    s.insert(Ty::mutc(Ty::union([Ty::Int, Ty::Float])));
+    s.insert(Ty::mutc(Ty::union([Ty::Int, Ty::Bool])));
+    s.insert(Ty::func(vec![], Ty::Tup(vec![Ty::Bool, Ty::Int])));
+    s.insert(Ty::func(vec![], Ty::Tup(vec![Ty::Bool, Ty::Any])));
+    s.insert(Ty::func(vec![Ty::mutc(Ty::Int)], Ty::Void));
+    s.insert(Ty::func(vec![Ty::mutc(Ty::union([Ty::Int, Ty::Float]))], Ty::Void));
     let ub = [Ty::Bool, Ty::Int, Ty::Float, Ty::Void];
     for i in 0..ub.len() {
         for j in i + 1..ub.len() {
@@ -76,6 +83,11 @@ pub fn d1_core() -> Vec<Ty> {
         i,
         f,
         Ty::Void,
+        Ty::func(vec![], Ty::Tup(vec![Ty::Bool, Ty::Int])),
+        Ty::func(vec![], Ty::Tup(vec![Ty::Bool, Ty::Any])),
+        Ty::func(vec![], Ty::Tup(vec![Ty::Bool, Ty::Never])),
+        Ty::mutc(Ty::union([Ty::Int, Ty::Float])),
+        Ty::Tup(vec![Ty::Int, Ty::Int, Ty::Int]),
     ]
 }
 
